@@ -453,6 +453,8 @@ class Upstream:
         if self.mode == 'err':
             raise HTTPClientError('upstream says 404', response_code=404)
         q = {k.lower(): v[0] for k, v in parse_qs(urlparse(url).query).items()}
+        q.setdefault('width', '256')      # tile source URL (no query string): one 256x256 tile
+        q.setdefault('height', '256')
         if '/b?' in url:
             # top layer of the merged WMS-C stream: opaque on the right half only, the layer below shows through
             w, h = int(q['width']), int(q['height'])
@@ -512,11 +514,19 @@ class App:
             # the cache of the layer is built on another cache whose regional grid covers the outer tiles of LEVEL only
             # partly; the lower cache has the WMS source (with on_error) and creates single tiles or 2x2 meta tiles
             half = 15028131.257091932
-            m = 1 if self.cascade == 'meta1' else 2
+            m = 2 if self.cascade == 'meta2' else 1
             conf['grids'] = {'lowgrid': {'srs': 'EPSG:900913', 'bbox': [-half, -half, half, half], 'origin': 'll'}}
-            conf['caches']['low'] = {'grids': ['lowgrid'], 'sources': ['up'], 'meta_size': [m, m], 'meta_buffer': 0,
-                                     'cache': {'type': 'file'}}
+            # cascade == 'srs': the lower cache is in another SRS (images pass the reprojecting mesh transformation)
+            conf['caches']['low'] = {'grids': ['GLOBAL_GEODETIC' if self.cascade == 'srs' else 'lowgrid'], 'sources': ['up'],
+                                     'meta_size': [m, m], 'meta_buffer': 0, 'cache': {'type': 'file'}}
             conf['caches']['c1']['sources'] = ['low']
+        self.bulk = bool(opts.get('bulk'))
+        if self.bulk:
+            # bulk_meta_tiles (only for tile sources): the tiles of a meta tile are fetched one by one
+            conf['sources']['up'] = {'type': 'tile', 'url': 'http://up.invalid/tiles/%(z)s/%(x)s/%(y)s.png', 'grid': 'GLOBAL_MERCATOR',
+                                     'on_error': {500: {'response': '#ff0000', 'cache': False}}}
+            conf['caches']['c1']['bulk_meta_tiles'] = True
+            conf['caches']['c1']['meta_size'] = [meta, meta]
         self.ref = None
         if refresh:
             self.ref = base + '/refresh_reference'
@@ -1477,15 +1487,16 @@ def run_app_stream(ctx):
         # post-processes its images (transparent_color)
         for cache_type, refresh, opts in (('file', True, {'authorize_stale': True}), ('sqlite', True, {'authorize_stale': True}),
                                           ('file', False, {'tcolor': True})):
-            hist = run_history(ctx, cache_type, 1, 72, ctx.n(40, 300), up, clock, refresh=refresh, opts=opts)
+            hist = run_history(ctx, cache_type, 1, 72, ctx.n(35, 300), up, clock, refresh=refresh, opts=opts)
             ctx.corr_check('app_%s_%s' % (cache_type, '_'.join(sorted(opts))), 'Cond',
                            'store * event * list (Z * entry) * option outcome * store', hist.terms,
                            CHECKER % (72 * 3600), lambda i, h=hist: h.descr[i], shard=60)
         # refresh rule with 2x2 meta tiles (the refreshed tile comes back as a new Tile object), cascaded caches
         for cache_type, refresh, meta, opts in (('file', True, 2, None), ('sqlite', True, 2, None),
                                                 ('file', False, 1, {'cascade': 'meta1'}), ('file', False, 1, {'cascade': 'meta2'}),
-                                                ('file', False, 1, {'watermark': True})):
-            hist = run_history(ctx, cache_type, meta, 72, ctx.n(40, 300), up, clock, refresh=refresh, opts=opts)
+                                                ('file', False, 1, {'watermark': True}), ('file', False, 1, {'cascade': 'srs'}),
+                                                ('file', False, 2, {'bulk': True})):
+            hist = run_history(ctx, cache_type, meta, 72, ctx.n(35, 300), up, clock, refresh=refresh, opts=opts)
             ctx.corr_check('app_%s_%s' % (cache_type, 'refresh_meta2' if refresh else '_'.join('%s_%s' % kv for kv in sorted(opts.items()))), 'Cond',
                            'store * event * list (Z * entry) * option outcome * store', hist.terms,
                            CHECKER % (72 * 3600), lambda i, h=hist: h.descr[i], shard=60)
@@ -1494,7 +1505,7 @@ def run_app_stream(ctx):
         for tz in ('America/New_York', 'Asia/Kolkata'):
             with TimeZone(tz):
                 run_tz_direct(ctx, tz)
-                hist = run_history(ctx, 'file', 1, 72, ctx.n(40, 300), up, clock, tz=tz)
+                hist = run_history(ctx, 'file', 1, 72, ctx.n(35, 300), up, clock, tz=tz)
                 ctx.corr_check('app_tz_%s' % tz.split('/')[1], 'Cond',
                                'store * event * list (Z * entry) * option outcome * store', hist.terms,
                                CHECKER % (72 * 3600), lambda i, h=hist: h.descr[i], shard=60)
